@@ -6,7 +6,12 @@ import SugarModel.Lemmas.NowFree
 namespace Sugar
 
 theorem nse_call {α : Type} (p : Prim) (k : p.Res → Prog α) (h1 : p.setsDeadline = false)
-    (h2 : ∀ r, (k r).NoSetDeadline) : (Prog.call p k).NoSetDeadline := ⟨h1, h2⟩
+    (h2 : ∀ r, (k r).NoSetDeadline) : (Prog.call p k).NoSetDeadline := ⟨h1, fun r _ => h2 r⟩
+
+/-- GetExpiry: only the answer "no deadline" has to be followed -/
+theorem nse_getExpiry {α : Type} (key : Bytes) (k : Option Int → Prog α) (h : (k none).NoSetDeadline) :
+    (Prog.call (.getExpiry key) k).NoSetDeadline :=
+  ⟨rfl, fun r hr => by have e : r = none := hr; subst e; exact h⟩
 
 theorem plusV_nse (v : Val) (k : Bytes → Prog Res) (h : ∀ r, (k r).NoSetDeadline) : (plusV v k).NoSetDeadline := by
   unfold plusV; split
@@ -65,7 +70,20 @@ theorem handleIncrBy_nse (c : Ctx) (cmd : List Bytes) : (handleIncrBy c cmd).NoS
 theorem handleDecrBy_nse (c : Ctx) (cmd : List Bytes) : (handleDecrBy c cmd).NoSetDeadline := by
   unfold handleDecrBy; nse <;> exact incrCore_nse _ _ _
 theorem handleIncrByFloat_nse (c : Ctx) (cmd : List Bytes) : (handleIncrByFloat c cmd).NoSetDeadline := by unfold handleIncrByFloat; nse
-theorem handleRename_nse (c : Ctx) (cmd : List Bytes) : (handleRename c cmd).NoSetDeadline := by unfold handleRename; nse
+/-- RENAME hands the deadline it read from the source on to SetExpiry: on a keyspace without deadlines both
+    GetExpiry calls answer "no deadline", the two agree and no SetExpiry is issued -/
+theorem handleRename_nse (c : Ctx) (cmd : List Bytes) : (handleRename c cmd).NoSetDeadline := by
+  unfold handleRename
+  split
+  · refine nse_call _ _ (by rfl) ?_
+    intro vs
+    split
+    · trivial
+    · split
+      · trivial
+      · refine nse_getExpiry _ _ (nse_getExpiry _ _ ?_)
+        nse
+  · trivial
 theorem handleGetdel_nse (c : Ctx) (cmd : List Bytes) : (handleGetdel c cmd).NoSetDeadline := by unfold handleGetdel; nse
 theorem handleType_nse (c : Ctx) (cmd : List Bytes) : (handleType c cmd).NoSetDeadline := by unfold handleType; nse
 theorem handleSetRange_nse (c : Ctx) (cmd : List Bytes) : (handleSetRange c cmd).NoSetDeadline := by unfold handleSetRange; nse
